@@ -14,6 +14,9 @@ gen_project(rng, dir, features=None) -> spec
         spec['targets']    [{'var','name','kind','dir','project','outputs','bbd'}]  in creation order
         spec['tests']      [{'name','exe': var,'depends':[var…],'benchmark':bool}]
         spec['collision']  None | kind
+        spec['failing_subproject']  None | {'call', 'without', 'root_without': root meson.build text without the call, …}:
+                           an optional subproject `optsp` that fails part-way; the project must configure exactly as
+                           the same project with `root_without` as its root meson.build
         spec['layout_sensitive'] True when the project is only collision-free under layout=mirror
     Everything random comes from `rng` (a random.Random).
 
@@ -58,6 +61,7 @@ DEFAULT_FEATURES: T.Dict[str, T.Any] = {
     'unity_size': 4,       # the -Dunity_size value in use: source counts are biased towards its exact multiples
     'extraction': 0.45,    # probability that a target consumes extracted objects of an earlier one
     'pch': 0.15,
+    'failing_subproject': 0.25,  # probability of an OPTIONAL subproject that fails part-way (state must not leak)
     'prereq_cases': 0.7,   # probability (per project part) of the test/benchmark prerequisite cases with private helpers
     'pipe_names': False,   # names containing `|` (ninja cannot express them; must be rejected at configure time)
 }
@@ -710,6 +714,74 @@ class _Gen:
             self.files[path] = '\n'.join(lines) + '\n'
 
 
+OPT_FAILURES = ["error('optional subproject gives up')", "assert(false, 'optional subproject assertion')",
+                "executable('never', 'this-file-does-not-exist.c')", "executable('never', 'o0.c', no_such_kwarg: 1)",
+                "dependency('surely-not-installed-xyz-42')", "subdir('no-such-dir')",
+                "find_program('surely-no-such-program-xyz')", "import('no_such_module_xyz')",
+                "subproject('no-such-nested-subproject')"]
+# (unknown functions / variables are InvalidCode: they abort the whole configuration even under required: false)
+
+
+def _failing_subproject(g: '_Gen', rng) -> dict:
+    """An optional subproject `optsp` that registers k things (targets, tests, benchmarks, install rules, headers, data,
+    scripts, overrides, aliases, a subdir) and then fails at a random statement; the parent calls it with
+    `required: false` (directly or as a dependency fallback) and must configure as if the call were not there.
+    Returns {'call': line in the root meson.build, 'without': replacement line}."""
+    root = os.path.join('subprojects', 'optsp')
+    g.files[os.path.join(root, 'gen.py')] = GEN_PY
+    for i in range(3):
+        g.files[os.path.join(root, f'o{i}.c')] = f'int o{i}(void) {{ return {i}; }}\n'
+    g.files[os.path.join(root, 'omain.c')] = 'int main(void) { return 0; }\n'
+    g.files[os.path.join(root, 'oh.h')] = '#pragma once\n'
+    g.files[os.path.join(root, 'od.txt')] = 'data\n'
+    g.files[os.path.join(root, 'osub', 'os.c')] = 'int main(void) { return 0; }\n'
+    g.files[os.path.join(root, 'osub', 'meson.build')] = (
+        "osube = executable('opt sub exe', 'os.c', install: true)\ntest('opt sub test', osube)\n")
+    pool = [
+        "oe = executable('opt exe', 'omain.c', 'o0.c')",
+        "ol = static_library('optlib', 'o1.c', install: true)",
+        "osh = shared_library('optshared', 'o2.c', version: '2.0.0')",
+        "oct = custom_target('opt ct', output: ['opt.h', 'opt.dat'], command: [gen, '@OUTPUT@'], build_by_default: true, "
+        "install: true, install_dir: ['include', 'share/opt'])",
+        "test('opt test', executable('opt texe', 'omain.c'))",
+        "benchmark('opt bench', executable('opt bexe', 'omain.c'), args: ['x'])",
+        "ohelper = executable('opt helper', 'omain.c', build_by_default: false)\ntest('opt test 2', ohelper, "
+        "depends: custom_target('opt dep', output: 'optdep.dat', command: [gen, '@OUTPUT@']))",
+        "install_headers('oh.h')",
+        "install_data('od.txt', install_dir: 'share/opt')",
+        "meson.add_install_script(gen, 'x')",
+        "meson.add_postconf_script(gen, 'y')",
+        "configure_file(output: 'optconf.h', configuration: {'O': 1})",
+        "alias_target('opt-alias', executable('opt aexe', 'omain.c', build_by_default: false))",
+        "run_target('opt-run', command: [gen, '--run'])",
+        "meson.override_find_program('optprog', executable('opt prog', 'omain.c', build_by_default: false))",
+        "meson.override_dependency('optdep', declare_dependency(link_with: static_library('optdeplib', 'o1.c')))",
+        "subdir('osub')",
+        "install_subdir('osub', install_dir: 'share/opt')",
+        "optgenr = generator(gen, output: '@BASENAME@.c', arguments: ['@INPUT@', '@OUTPUT@'])",
+    ]
+    k = rng.randint(1, 9)
+    body = rng.sample(pool, k)
+    lines = ["project('optsp', 'c', version: '0.1')", "gen = find_program('gen.py')"]
+    if rng.random() < 0.15 and body:
+        lines = ["project('optsp', 'c', version: '0.1')", "gen = find_program('gen.py')"]
+    fail_at = rng.randint(0 if rng.random() < 0.15 else 1, len(body))
+    body.insert(fail_at, rng.choice(OPT_FAILURES))
+    lines += body
+    lines.append("odep = declare_dependency()")
+    g.files[os.path.join(root, 'meson.build')] = '\n'.join(lines) + '\n'
+    how = rng.random()
+    if how < 0.5:
+        call, without = "optsp = subproject('optsp', required: false)", ''
+    elif how < 0.8:
+        call = "optd = dependency('optdep-not-installed', fallback: ['optsp', 'odep'], required: false)"
+        without = "optd = dependency('', required: false)"
+    else:
+        call = "optd = dependency('optdep', required: false, fallback: ['optsp', 'odep'])"
+        without = "optd = dependency('', required: false)"
+    return {'call': call, 'without': without, 'registered': k, 'fail_at': fail_at}
+
+
 def gen_project(rng, dir: str, features: T.Optional[dict] = None) -> dict:
     g = _Gen(rng, features)
     f = g.f
@@ -742,10 +814,22 @@ def gen_project(rng, dir: str, features: T.Optional[dict] = None) -> dict:
             g.fill_dir('', '', rng.randint(0, 2))
     else:
         g.gen_project_body('', budget)
+    failing = None
+    if not f['collision'] and rng.random() < f['failing_subproject']:
+        failing = _failing_subproject(g, rng)
+        root_lines = g.lines['']
+        pos = rng.randint(1, len(root_lines))
+        root_lines.insert(pos, failing['call'])
+        # whatever the failed subproject registered must be invisible afterwards
+        root_lines.append("optp = find_program('optprog', required: false)")
+        root_lines.append("if optp.found()\n  test('leaked override', optp)\nendif")
     g.finish()
+    if failing:
+        failing['root_without'] = g.files['meson.build'].replace(
+            failing['call'] + '\n', (failing['without'] + '\n') if failing['without'] else '', 1)
     write_project(dir, g.files)
     return {'files': g.files, 'targets': g.targets, 'tests': g.tests, 'collision': f['collision'],
-            'layout_sensitive': g.layout_sensitive, 'subproject': sub}
+            'layout_sensitive': g.layout_sensitive, 'subproject': sub, 'failing_subproject': failing}
 
 
 def write_project(dir: str, files: T.Dict[str, str]) -> None:
